@@ -7,7 +7,7 @@
 From Coq Require Import List NArith ZArith Bool Lia Arith.
 From GmsmVerif Require Import Lib.Outcome EC.ECAffine EC.SM2Curve SM3.SM3Spec
      SM2.SM2Bytes SM2.SM2BytesProofs SM2.SM2Spec SM2.DER SM2.SM2Model SM2.SM2SignProofs SM2.SM2GroupMin
-     SM2.SM2EncProofs SM2.SM2Asn1Proofs SM2.SM2OtherKey SM2.SM2Unconditional.
+     SM2.SM2EncProofs SM2.SM2Asn1Proofs SM2.SM2OtherKey SM2.SM2Unconditional SM2.SM2Consumers.
 From GmsmVerif Require Import SM2.SM2ParamsTie Gen.SM2Params Gen.SM2SigParams.
 Import ListNotations.
 Open Scope Z_scope.
@@ -242,6 +242,17 @@ Theorem C02_other_key_rejected_or_collision_noassoc :
       fe_bytes (x_of S') ++ M' ++ fe_bytes (y_of S') <> fe_bytes (x_of S) ++ M ++ fe_bytes (y_of S).
 Proof. intros Hp. exact (other_key_collision Hp (add_assoc_holds Hp)). Qed.
 Print Assumptions C02_other_key_rejected_or_collision_noassoc.
+
+(* ---- the consumer named by the anchors: the TLS ECC key exchange returns a premaster secret only when the
+   ciphertext unmarshals, DECRYPTS WITHOUT ERROR (hence all of C02_decrypt_ok_implies) and gives 48 bytes -------- *)
+Theorem C02_processClientKeyExchange_reports_errors :
+  forall pr ct plain,
+    processClientKeyExchange pr ct = Ok plain ->
+    exists b0 b1 cipher raw,
+      ct = b0 :: b1 :: cipher /\ Z.of_N b0 * 256 + Z.of_N b1 = Z.of_nat (length cipher) /\
+      CipherUnmarshal cipher = Ok raw /\ Decrypt pr raw 0 = Ok plain /\ length plain = 48%nat.
+Proof. exact processClientKeyExchange_ok. Qed.
+Print Assumptions C02_processClientKeyExchange_reports_errors.
 
 (* ---- tie to the source: curve constants, 40 nonce bytes, mode values, minimal ciphertext length ---------- *)
 Theorem C02_source_constants_tied :
